@@ -378,4 +378,82 @@ package agent
 //@       sameSlice(logAt[[]byte]("written", wn0+j), old(w.buf[j])) && same(logAt[io.Writer]("writtento", wn0+j), w.Writer) })
 //@ end
 
+// ---------------------------------------------------------------- log monitors (C29, second sentence)
+
+// delivery of one line to one monitor is a logged call (what the monitor does with it -- level filter, bounded queue --
+// is its own business)
+//@ func (ls *logStream) HandleLog(l string)
+//@   trusted
+//@   logcalls handlelog
+//@   assigns
+//@ end
+
+// the ring of recent lines: slots below index are written; once the ring has wrapped every slot is (lines are never
+// empty: the log package always writes a prefix)
+//@ pure func ringWrapped(l *logWriter) bool { return l.logs[l.index] != "" }
+//@ pure func ringCount(l *logWriter) int { return ite(ringWrapped(l), len(l.logs), l.index) }
+// the k-th most recent buffered line, oldest first
+//@ pure func ringAt(l *logWriter, k int) string { return ite(ringWrapped(l), l.logs[(l.index+k)%len(l.logs)], l.logs[k]) }
+//@ pure func wfLogWriter(l *logWriter) bool {
+//@   return l != nil && len(l.logs) > 0 && 0 <= l.index && l.index < len(l.logs) && l.handlers != nil && arrayAllocated(l.logs)
+//@ }
+//@ pure func isLogStream(lh LogHandler) bool { _, ok := lh.(*logStream); return ok }
+//@ pure func asLogStream(lh LogHandler) *logStream { s, _ := lh.(*logStream); return s }
+
+//@ func (l *logWriter) RegisterHandler(lh LogHandler)
+//@   requires wf: wfLogWriter(l) && isLogStream(lh)
+//@   oldlet c0 := callNOf("handlelog")
+//@   oldlet known := mapHas(l.handlers, lh)
+//@   oldlet n := ringCount(l)
+//@   ensures wf [C29]: wfLogWriter(l) && l.index == old(l.index) && mapHas(l.handlers, lh)
+//@   ensures already_registered_gets_nothing [C29]: known ==> callNOf("handlelog") == c0
+//@   # a new monitor first gets the buffered lines, all of them, once each, oldest first
+//@   ensures new_monitor_gets_recent_lines_in_order [C29]: !known ==> callNOf("handlelog") == c0+n && forall(func(k int) bool {
+//@       return 0 <= k && k < n ==> callRecvOf[*logStream]("handlelog", c0+k) == asLogStream(lh) && callStrOf("handlelog", c0+k) == old(ringAt(l, k)) })
+//@   ensures ring_untouched [C29]: forall(func(i int) bool { return 0 <= i && i < len(l.logs) ==> l.logs[i] == old(l.logs[i]) })
+//@   loop 1 vars i int
+//@   loop 1 invariant older_half [C29]: l.index <= i && i <= len(l.logs) && wfLogWriter(l) && l.index == old(l.index) && ringWrapped(l) && callNOf("handlelog") == c0+(i-l.index) &&
+//@       forall(func(k int) bool { return 0 <= k && k < i-l.index ==> callRecvOf[*logStream]("handlelog", c0+k) == asLogStream(lh) && callStrOf("handlelog", c0+k) == l.logs[l.index+k] }) &&
+//@       forall(func(j int) bool { return 0 <= j && j < len(l.logs) ==> l.logs[j] == old(l.logs[j]) })
+//@   loop 2 vars i int
+//@   loop 2 invariant newer_half [C29]: 0 <= i && i <= l.index && wfLogWriter(l) && l.index == old(l.index) &&
+//@       callNOf("handlelog") == c0+ite(ringWrapped(l), len(l.logs)-l.index, 0)+i &&
+//@       forall(func(k int) bool { return 0 <= k && k < ite(ringWrapped(l), len(l.logs)-l.index, 0) ==>
+//@         callRecvOf[*logStream]("handlelog", c0+k) == asLogStream(lh) && callStrOf("handlelog", c0+k) == l.logs[l.index+k] }) &&
+//@       forall(func(k int) bool { return 0 <= k && k < i ==> callRecvOf[*logStream]("handlelog", c0+ite(ringWrapped(l), len(l.logs)-l.index, 0)+k) == asLogStream(lh) &&
+//@         callStrOf("handlelog", c0+ite(ringWrapped(l), len(l.logs)-l.index, 0)+k) == l.logs[k] }) &&
+//@       forall(func(j int) bool { return 0 <= j && j < len(l.logs) ==> l.logs[j] == old(l.logs[j]) })
+//@ end
+
+//@ pure func monitorsAreStreams(l *logWriter) bool { return forall(func(h LogHandler) bool { return mapHas(l.handlers, h) ==> isLogStream(h) }) }
+
+//@ func (l *logWriter) Write(p []byte) (n int, err error)
+//@   requires wf: wfLogWriter(l) && monitorsAreStreams(l)
+//@   # the log package never writes an empty slice (there is always at least the newline)
+//@   requires nonempty: len(p) > 0
+//@   oldlet c0 := callNOf("handlelog")
+//@   oldlet idx0 := l.index
+//@   let line := l.logs[idx0]
+//@   ensures wf [C29]: wfLogWriter(l) && monitorsAreStreams(l) && n == len(p) && err == nil
+//@   # the line takes the oldest slot of the ring, nothing else moves
+//@   ensures recorded [C29]: l.index == (idx0+1)%len(l.logs) && forall(func(i int) bool { return 0 <= i && i < len(l.logs) && i != idx0 ==> l.logs[i] == old(l.logs[i]) })
+//@   ensures monitors_kept [C29]: forall(func(h LogHandler) bool { return mapHas(l.handlers, h) == old(mapHas(l.handlers, h)) })
+//@   # every attached monitor gets exactly this line, exactly once
+//@   ensures only_monitors_only_this_line [C29]: c0 <= callNOf("handlelog") && forall(func(k int) bool { return c0 <= k && k < callNOf("handlelog") ==>
+//@       callStrOf("handlelog", k) == line && exists(func(h LogHandler) bool { return mapHas(l.handlers, h) && asLogStream(h) == callRecvOf[*logStream]("handlelog", k) }) })
+//@   ensures at_most_once_each [C29]: forall2(func(k, k2 int) bool { return c0 <= k && k < k2 && k2 < callNOf("handlelog") ==>
+//@       callRecvOf[*logStream]("handlelog", k) != callRecvOf[*logStream]("handlelog", k2) })
+//@   ensures every_monitor [C29]: forall(func(h LogHandler) bool { return mapHas(l.handlers, h) ==>
+//@       exists(func(k int) bool { return c0 <= k && k < callNOf("handlelog") && callRecvOf[*logStream]("handlelog", k) == asLogStream(h) }) })
+//@   loop 1 invariant delivering [C29]: wfLogWriter(l) && monitorsAreStreams(l) && l.index == (idx0+1)%len(l.logs) && c0 <= callNOf("handlelog") &&
+//@       forall(func(i int) bool { return 0 <= i && i < len(l.logs) && i != idx0 ==> l.logs[i] == old(l.logs[i]) }) &&
+//@       forall(func(h LogHandler) bool { return mapHas(l.handlers, h) == old(mapHas(l.handlers, h)) })
+//@   loop 1 invariant sent_so_far [C29]: forall(func(k int) bool { return c0 <= k && k < callNOf("handlelog") ==>
+//@       callStrOf("handlelog", k) == l.logs[idx0] && exists(func(h LogHandler) bool { return mapHas(l.handlers, h) && visited(l.handlers, h) && asLogStream(h) == callRecvOf[*logStream]("handlelog", k) }) })
+//@   loop 1 invariant distinct_so_far [C29]: forall2(func(k, k2 int) bool { return c0 <= k && k < k2 && k2 < callNOf("handlelog") ==>
+//@       callRecvOf[*logStream]("handlelog", k) != callRecvOf[*logStream]("handlelog", k2) })
+//@   loop 1 invariant visited_got_it [C29]: forall(func(h LogHandler) bool { return visited(l.handlers, h) ==>
+//@       exists(func(k int) bool { return c0 <= k && k < callNOf("handlelog") && callRecvOf[*logStream]("handlelog", k) == asLogStream(h) }) })
+//@ end
+
 // END-OF-CONTRACTS
